@@ -18,11 +18,12 @@ import aave_lib as A
 from common import Ctx, driver_json, fmt
 
 PROPERTY = "C13"
-LEAN_MODULES = ["Proofs.C13"]
+LEAN_MODULES = ["Proofs.C13", "Proofs.C13.Update"]
 DRIVERS = ["driver_aave"]
 RULE = ("random operation sequences (2-4 tokens, 27-digit indices, prices over 9 decades, risk tables with zero LTV / non-collateral / "
         "non-borrowable tokens) interleaving every public read with supply/withdraw/borrow/repay(cash|collateral)/change_collateral/"
-        "update/new bar, liquidations at exact collateral/debt ties (capped-or-not decided by the 35-digit rounding), plus a malformed stream (zero, negative, huge, unknown token, closed market) and price shocks that trigger "
+        "update/new bar (quiet bars: parts of the row, or everything but one price, repeat the previous bar)/the same bar set again without a row "
+        "(data=None, prices unchanged or a held token re-priced), the same token supplied and borrowed, collateral crashes that leave 0 < HF <= 1e-6, liquidations at exact collateral/debt ties (capped-or-not decided by the 35-digit rounding), plus a malformed stream (zero, negative, huge, unknown token, closed market) and price shocks that trigger "
         "liquidation; bucket = (operation or view, model outcome/rejection cause, argument class, number of filled supply-side and "
         "borrow-side caches before the call)")
 TRUSTED = ["theorems are for every arithmetic context (cache coherence does not depend on rounding); the driver runs the model under "
@@ -32,8 +33,11 @@ ASSUMPTIONS = ["theorems: the bar's data has an index/rate row, a price and a ri
                "token that is held (Covers) and has non-zero indices (EnvPos); bars whose price vector lacks a held token are exercised by "
                "the oracle only (every valuation must raise KeyError, on cold caches and after an interrupted fill alike — repaired by c25cbec)",
                "no raise is excluded: DemeterError('variable_delt < actual_debt_to_liquidate') in _do_liquidate used to sit after the collateral "
-               "seizure and before the cache resets and was reachable at exact ties (repaired by d1c4970: checked before anything changes); "
-               "tie sequences exercise that path on every run",
+               "seizure and before the cache resets and was reachable at exact ties (repaired by d1c4970: checked before anything changes, and the "
+               "repayment is min-ed down); it is now proved unreachable (C13_liquidate_never_raises_debt_exceeds: monotone idempotent rounding, no "
+               "negative debt entry) and the hypothesis Aave.updWF is evaluated on every update() of this run, by the harness on the "
+               "implementation's state and by the driver on the model's: a raise on a well-formed state is a VIOLATION; tie sequences exercise "
+               "that path on every run",
                "broker.allow_negative_balance is False (the default)"]
 
 
@@ -79,6 +83,9 @@ def liq_script(rng, env):
         script.append(({"kind": "supply", "tok": c, "amount": fmt(amt), "coll": True}, None))
         limit += usd * env["risk"][c]["ltv"]
     ds = rng.sample(debts, min(len(debts), rng.choice([1, 1, 2])))
+    if rng.random() < 0.3 and any(c in debts for c in cs):
+        ds[0] = rng.choice([c for c in cs if c in debts])      # the collateral token is also borrowed
+        ds = list(dict.fromkeys(ds))
     share = A.dec_digits(rng, 0.80, 0.985, 4) / len(ds)
     for d in ds:
         a = (limit * share / env["price"][d])
@@ -87,10 +94,17 @@ def liq_script(rng, env):
             script.append(({"kind": "borrow", "tok": d, "amount": fmt((a / k).normalize())}, None))
             if rng.random() < 0.5:
                 script.append(({"kind": "read", "view": rng.choice(["borrows", "healthFactor", "totalBorrowsValue", "marketBalance"])}, None))
-    shock = {c: A.dec_digits(rng, 0.3, 0.85, 4) for c in cs}
+    shock = {c: A.dec_digits(rng, 0.3, 0.85, 4) for c in cs if c not in ds or len(cs) > 1}
+    if rng.random() < 0.15:
+        # the collateral all but vanishes: 0 < HF <= 1e-6 at the end of the bar (liquidated like any HF below 1)
+        shock = {c: D(rng.choice([1, 3, 9])) / D(10) ** rng.choice([7, 8, 10, 13]) for c in cs if c not in ds}
     script.append(({"kind": "newBar"}, shock))
     for _ in range(rng.choice([0, 1, 2])):
         script.append(({"kind": "read", "view": rng.choice(A.VIEWS0)}, None))
+    if rng.random() < 0.3:
+        # a write, then the bar is set again (same timestamp, no row, a held token re-priced) before update(): what the Actuator does
+        script.append(({"kind": "read", "view": rng.choice(["healthFactor", "marketBalance", "supplies", "borrows"])}, None))
+        script.append(({"kind": "newBar"}, "refresh"))
     script.append(({"kind": "update"}, None))
     script.append(({"kind": "read", "view": rng.choice(["supplies", "borrows", "marketBalance", "healthFactor"])}, None))
     if rng.random() < 0.5:
@@ -108,7 +122,7 @@ def run_sequence(ctx: Ctx, rng, nsteps, reqs, meta, exact_env=False, pandas_stat
         if sc is None:
             return
         script = [op for op, _ in sc]
-        shocks = {i: sh for i, (_, sh) in enumerate(sc) if sh is not None}
+        shocks = {i: sh for i, (_, sh) in enumerate(sc) if sh is not None}      # a price shock per token, or "refresh"
         nsteps = len(script)
         m, b, actions = A.new_market(env, wallet)
     elif tie:
@@ -129,6 +143,11 @@ def run_sequence(ctx: Ctx, rng, nsteps, reqs, meta, exact_env=False, pandas_stat
         r = rng.random()
         if r < 0.07 or (last_kind == "newBar" and r < 0.5):
             return {"kind": "update"}, None
+        if 0.16 <= r < 0.21:
+            # the same bar set again without a row (data=None: the market reloads it from its frame), prices unchanged or re-priced:
+            # every view must follow the price Series that is installed now
+            held = [k.name for k in list(m._supplies) + list(m._borrows)]
+            return {"kind": "newBar"}, A.refresh_env(rng, env, held)
         if r < 0.16:
             shock = None
             if m._supplies and rng.random() < 0.6:
@@ -144,7 +163,7 @@ def run_sequence(ctx: Ctx, rng, nsteps, reqs, meta, exact_env=False, pandas_stat
                 drop = rng.choice(later if later and rng.random() < 0.7 else held)
                 nxt["price"] = {t: p for t, p in nxt["price"].items() if t != drop}
             return {"kind": "newBar"}, nxt
-        if r < 0.42:
+        if r < 0.45:
             return read_op(), None
         return A.gen_op(rng, m, b, env), None
 
@@ -163,7 +182,10 @@ def run_sequence(ctx: Ctx, rng, nsteps, reqs, meta, exact_env=False, pandas_stat
         if script is not None:
             op = script[i]
             if op["kind"] == "newBar":
-                env_next = A.next_env(rng, env, shocks.get(i))
+                if shocks.get(i) == "refresh":
+                    env_next = A.refresh_env(rng, env, [k.name for k in list(m._supplies) + list(m._borrows)], "held")
+                else:
+                    env_next = A.next_env(rng, env, shocks.get(i))
         else:
             if not pending:
                 op, nxt = draw()
@@ -181,6 +203,21 @@ def run_sequence(ctx: Ctx, rng, nsteps, reqs, meta, exact_env=False, pandas_stat
             env = env_next
         s1 = A.dump_state(m, b, actions, n0)
         case = {"env": A.env_json(env_used), "state": s0, "op": op}
+        for ft in A.features(m, env):
+            ctx.count("feature:" + ft)
+        wf = None
+        if op["kind"] == "update":
+            # the hypothesis of `C13_liquidate_never_raises_debt_exceeds_wf` / `C04_aave_update_completes`, evaluated on this very state:
+            # on a well-formed bar and state an open market's update() must not raise at all
+            wf = A.upd_wf(env_used, s0)
+            ctx.count("update_on_well_formed_state" if wf else "update_on_malformed_state")
+            hf0 = next((a["hfBefore"] for a in s1["actions"] if a["kind"] == "liquidation"), None)
+            if hf0 not in (None, "inf") and 0 < A.Fraction(hf0) <= A.Fraction(1, 10 ** 6):
+                ctx.count("feature:update-with-hf-in-(0,1e-6]")
+            if wf and env_used.get("isOpen", True) and outcome != "ok":
+                ctx.violate(f"update.raises-on-well-formed-state:{outcome}",
+                            f"update() raised {outcome} on an open market although the bar and the positions are well formed "
+                            f"(positive indices and prices, no negative balance, collateral with LT > 0)", case)
         if op["kind"] == "helper":
             ctx.case(f"helper:{op['view']}:{outcome}:{filled(s0)}", {"op": op, "outcome": outcome})
             core = lambda st: {k: st[k] for k in ("supplies", "borrows", "wallet", "hasUpdate")}    # noqa: E731
@@ -188,7 +225,7 @@ def run_sequence(ctx: Ctx, rng, nsteps, reqs, meta, exact_env=False, pandas_stat
                 ctx.violate(f"helper-writes:{op['view']}", f"the read-only helper {op} changed positions / wallet / log / has_update", case)
         else:
             reqs.append(A.step_request(env_used, s0, op))
-            meta.append(("step", case, outcome, result, s1, filled(s0)))
+            meta.append(("step", case, outcome, result, s1, filled(s0), wf))
         # ---- oracle: cached views == cold-cache views == Lean spec on the raw state
         toks = list(env["tokens"])
         warm, cold = observe_all(m, toks)
@@ -231,8 +268,10 @@ def compare(ctx: Ctx, reqs, meta, outs):
             ctx.disagree(f"driver error {o['error']}", mt[1])
             continue
         if mt[0] == "step":
-            _, case, outcome, result, s1, fl = mt
+            _, case, outcome, result, s1, fl, wf = mt
             op = case["op"]
+            if wf is not None and o.get("wf") != wf:
+                ctx.disagree(f"{op}: well-formedness (Aave.updWF) impl-side {wf} model {o.get('wf')}", case)
             name = op.get("view", op["kind"])
             if name == "update":
                 name += f":liq{sum(1 for a in s1['actions'] if a['kind'] == 'liquidation')}"
@@ -289,6 +328,9 @@ def replay(ctx: Ctx, case) -> bool:
     outcome, _ = A.apply_op(m, case["op"], env)
     warm, cold = observe_all(m, env["tokens"])
     ok = True
+    if case["op"]["kind"] == "update" and env.get("isOpen", True) and outcome != "ok" and A.upd_wf(env, case["state"]):
+        print(f"   update() raised {outcome} on a well-formed bar and state")
+        ok = False
     for v in A.VIEWS0:
         if not A.same(warm[v], cold[v]):
             print(f"   view {v}: cached {warm[v]} vs from scratch {cold[v]}")
